@@ -74,6 +74,13 @@ func runChild(d Driver) childOut {
 	return out
 }
 
+// Extra, when set, runs after the drivers in the parent process (sequential
+// history checks that belong to the same property), with no exploration active.
+var Extra func(c *enum.Ctx)
+
+// ExtraReplay handles replay inputs that are not schedules.
+var ExtraReplay func(c *enum.Ctx, in json.RawMessage) bool
+
 // Main is the entry point of an E1 harness binary.
 func Main(id, level string, drivers func(quick bool) []Driver, describe func(c *enum.Ctx)) {
 	runtime.GOMAXPROCS(4)
@@ -160,7 +167,13 @@ func Main(id, level string, drivers func(quick bool) []Driver, describe func(c *
 			}
 		}
 		c.Set("drivers", per)
+		if Extra != nil {
+			Extra(c)
+		}
 	}, func(c *enum.Ctx, in json.RawMessage) {
+		if ExtraReplay != nil && ExtraReplay(c, in) {
+			return
+		}
 		var r replayIn
 		if err := json.Unmarshal(in, &r); err != nil {
 			panic(err)
